@@ -922,6 +922,10 @@ def _int_or_none(val: str) -> int | None:
     val = val.strip()
     if val == "":
         return None
+    if re.fullmatch(r"[0-9]+", val) is None:
+        # int() would also accept signs, underscores, inner whitespace
+        # and non-ASCII digits.
+        raise ValueError("not a byte position: %r" % val)
     return int(val)
 
 
